@@ -365,6 +365,8 @@ def check_history(ctx: Ctx, hist, steps, origin):
         for k_, v in obs["probe_errors"].items():
             ctx.hist("probe_errors", k_, v)
         prev = obs
+        if failed:
+            break           # later steps of this history would only echo the first failure
     return failed
 
 
